@@ -81,7 +81,7 @@ def evaluate(ctx, cases):
                 a, b = b, a
             times = np.arange(n) / fs
             try:
-                got = implutil.quiet(limit_df, df, fs, start=a, stop=b, reset_indices=c['reset']); gerr = None
+                got = implutil.twice(lambda: implutil.quiet(limit_df, df, fs, start=a, stop=b, reset_indices=c['reset']), [df], 'limit_df'); gerr = None
             except Exception as e:
                 got, gerr = None, type(e).__name__ + ': ' + str(e)[:100]
             try:
